@@ -3,9 +3,11 @@
    merge_obj s o models _merge_module_stubs(o, s) / _merge_class_stubs(o, s) of merger.py (stubs first);
    Done r = returned normally with o mutated into r, Raised e p = raised e leaving o as p.
    Al = alias whose target is not loaded, AlTo = alias carrying the value of its loaded final target.
-   The model is that of the code after the repairs of findings C19-F1, F2, F3: no theorem carries a gap hypothesis. *)
+   The model is that of the code after the repairs of findings C19-F1, F2, F3: no theorem about ONE merge carries a gap
+   hypothesis.  The loader's SECOND merge of the same pair (Model/C19_reload.v: remerge, settle, load_package2) is
+   characterised exactly; its idempotence holds modulo the known finding C19-F5 (gap predicate: not quiet_moved). *)
 From Coq Require Import List ZArith String Bool Arith.
-From Verif Require Import Lib.Sexp Model.C19_merge Proofs.C19_merge.
+From Verif Require Import Lib.Sexp Model.C19_merge Proofs.C19_merge Model.C19_reload Model.C19_seq Proofs.C19_reload Proofs.C19_chain Proofs.C19_seq.
 Import ListNotations.
 Open Scope string_scope. Open Scope list_scope. Open Scope nat_scope.
 
@@ -219,3 +221,140 @@ Theorem C19_repaired_witnesses :
      at_path ["C"; "only"] r = Some (Obj (with_rt (with_ret (with_params (nd KFun) [("self", None)]) (Some "int")) false) [])).
 Proof. exact repaired_witnesses. Qed.
 Print Assumptions C19_repaired_witnesses.
+
+(* ---------------------------------------------------------------------------------------------------------------------
+   The loader merges a package's __init__ stubs TWICE (modules-collection set_member, then merge_stubs in _load_package).
+   remerge s o r = the second _merge_module_stubs(o, s) where o was already merged into r: objects, not values - the
+   stub-only members moved into the runtime tree by the first merge are now stub member and runtime member at once.
+   wfs = names of members / parameters / imports / buffer keys are unique at every depth (they are dicts);
+   has_dicts = every module / class of the stubs carries its pending-overloads dict (as the visitor builds them). *)
+
+(* Exactly what the second merge does, for all trees: every stub-only member is merged into itself ([settle]: its pending
+   overload groups are handed to its own functions and the dict is emptied, recursively), classes / modules present on
+   both sides are entered, and NOTHING else changes - docstrings, imports, annotations, returns, overloads, order. *)
+Theorem C19_second_merge_only_settles :
+  forall s, wfs s -> has_dicts s = true -> root_container s = true ->
+  forall o r, merge_obj s o = Done r -> remerge s o r = Done (resettle s o r).
+Proof. exact second_merge_resettles. Qed.
+Print Assumptions C19_second_merge_only_settles.
+
+(* Idempotence of the loader's double merge (stubs on the package __init__, in the package itself): the loaded module is
+   the single merge up to the bookkeeping dicts - unless a stub-only class / module holds a pending overload group for
+   one of its own functions (known finding C19-F5; quiet_moved is the decidable complement of its gap predicate). *)
+Theorem C19_double_merge_idempotent_modulo_known :
+  forall s, wfs s -> has_dicts s = true -> root_container s = true ->
+  forall top r, merge_obj s top = Done r ->
+  load_package2 top s [] = Ok (resettle s top r) /\
+  (quiet_moved s top = true -> erase_buf (resettle s top r) = erase_buf r).
+Proof. exact load_package_in_package_stubs. Qed.
+Print Assumptions C19_double_merge_idempotent_modulo_known.
+
+(* ... and the gap is real (replayed on the implementation on every run: corpus pair F5_WITNESS): with
+   class S: def g(self, x: float) -> float; @overload def g(self, x: int) -> int   only in the stubs, the double merge
+   gives S.g an overload list that the single merge (sibling m.pyi) does not. *)
+Theorem C19_double_merge_refuted :
+  exists s o r r2, wfs s /\ has_dicts s = true /\ root_container s = true /\ quiet_moved s o = false /\
+    merge_obj s o = Done r /\ load_package2 o s [] = Ok r2 /\ erase_buf r2 <> erase_buf r /\
+    at_path ["S"; "g"] r = Some ex5_g /\
+    at_path ["S"; "g"] r2 = Some (Obj (with_ov (with_ret (with_params (nd KFun) [("self", None); ("x", Some "float")]) (Some "float"))
+                                               (OvList ["g(self, x: int) -> int"])) []).
+Proof. exact double_merge_refuted. Qed.
+Print Assumptions C19_double_merge_refuted.
+
+(* non-vacuity: an ordinary stub-only class (overload-only method m, method k) satisfies every hypothesis; the second merge
+   drains its pending group (so "up to the bookkeeping dicts" cannot be dropped) and changes nothing else *)
+Theorem C19_double_merge_hypotheses_satisfiable :
+  exists r r2, wfs ex5_s_ok /\ has_dicts ex5_s_ok = true /\ root_container ex5_s_ok = true /\ quiet_moved ex5_s_ok ex5_o = true /\
+    merge_obj ex5_s_ok ex5_o = Done r /\ load_package2 ex5_o ex5_s_ok [] = Ok r2 /\
+    erase_buf r2 = erase_buf r /\ r2 <> r /\
+    at_path ["S"] r2 = Some (set_rt false (ex5_S [] [("k", ex5_g)])).
+Proof. exact double_merge_hypotheses_satisfiable. Qed.
+Print Assumptions C19_double_merge_hypotheses_satisfiable.
+
+(* known finding C19-F4 (replayed on the implementation on every run): in-package stubs of a submodule are merged while
+   the submodules are loaded, before `from _pkg import *` of the runtime module is expanded - the model of one merge, fed
+   the runtime module as visited (one unexpanded wildcard alias), makes the re-exported function a stub-only member. *)
+Theorem C19_F4_wildcard_facade_refuted :
+  exists r, set_member_module (mkF false ex4_o) (mkF true ex4_s) = Ok (mkF false r) /\
+    set_member_module (mkF true ex4_s) (mkF false ex4_o) = Ok (mkF false r) /\
+    names (members r) = ["_pkg/*"; "scale"] /\
+    at_path ["scale"] r = Some (set_rt false ex4_scale) /\ runtime_of (set_rt false ex4_scale) = false.
+Proof. exact F4_wildcard_facade_refuted. Qed.
+Print Assumptions C19_F4_wildcard_facade_refuted.
+
+(* known finding C19-F6 (replayed on the implementation on every run), on the sequential model of one package
+   (Model/C19_seq.v: files arrive in listing order, a pair is merged when its second file arrives, aliases are resolved
+   against what is loaded at that moment and merged through).  pkg/m.py: A = 1, pkg/m.pyi: A: int, pkg/user.py:
+   from pkg.m import A, pkg/user.pyi: A: complex.  With user's pair between the two files of m's pair, which file of m's
+   pair comes first decides pkg.m.A's annotation, and stubs-first leaves the alias pkg.user.A bound to the dropped stub
+   object; with the two files adjacent both orders agree. *)
+Theorem C19_interleaved_pair_order_refuted :
+  let stubs_first := load_seq 8 "pkg" [("m", ex6_mpyi); ("user", ex6_upy); ("user", ex6_upyi); ("m", ex6_mpy)] in
+  let runtime_first := load_seq 8 "pkg" [("m", ex6_mpy); ("user", ex6_upy); ("user", ex6_upyi); ("m", ex6_mpyi)] in
+  ann_of_A stubs_first = Some (Some "complex") /\ ann_of_A runtime_first = Some (Some "int") /\
+  s_stale stubs_first = ["pkg.user.A"] /\ s_stale runtime_first = [] /\
+  s_dirty stubs_first = false /\ s_dirty runtime_first = false /\
+  s_mods (load_seq 8 "pkg" [("m", ex6_mpyi); ("m", ex6_mpy); ("user", ex6_upy); ("user", ex6_upyi)]) =
+  s_mods (load_seq 8 "pkg" [("m", ex6_mpy); ("m", ex6_mpyi); ("user", ex6_upy); ("user", ex6_upyi)]).
+Proof. exact interleaved_pair_order_refuted. Qed.
+Print Assumptions C19_interleaved_pair_order_refuted.
+
+(* Chains of aliases to a loaded object (m.X -> b_mid.X -> a_impl.X, any length): the final target gets exactly the merge
+   a directly defined object gets (member_result on the object itself: the function / attribute / container rows above),
+   every link of the chain stays an alias with its target and runtime flag, and the chain ends where it ended. *)
+Theorem C19_alias_chain_row :
+  forall sd sms od oms r n om sm omd omms,
+  merge_obj (Obj sd sms) (Obj od oms) = Done r -> NoDup (names sms) -> NoDup (names (buf_of sd)) ->
+  lookup n oms = Some om -> lookup n sms = Some sm -> hit1 (buf_of sd) n = None ->
+  final om = Obj omd omms ->
+  let x := member_result merge_obj sm (Obj omd omms) in
+  lookup n (members r) = Some (retarget om x) /\
+  alias_chain (retarget om x) = alias_chain om ++ alias_chain x /\
+  final (retarget om x) = final x.
+Proof. exact alias_chain_row. Qed.
+Print Assumptions C19_alias_chain_row.
+
+(* Order independence at the level of the package (sequential model): when the two files of a pair arrive one right after
+   the other - no file of another module in between, the complement of known finding C19-F6 - both orders lead to the
+   SAME state (modules, alias bindings, stale aliases), namely pair_result: the stubs merged into the runtime module with
+   its aliases resolved against the modules loaded before.  Hypotheses: the module is not loaded yet, nothing loaded so far
+   points into it (clean / state_clean / bindings), stubs as the visitor builds them. *)
+Theorem C19_adjacent_pair_order_independent :
+  forall fuel pk s n a b stb md,
+  s_err s = None -> lookup n (s_mods s) = None ->
+  (forall bd, In bd (s_bound s) -> b_home bd <> n) ->
+  state_clean n (s_mods s) -> clean n (body a) -> clean n (body b) ->
+  roles a b = Some (stb, md) -> xorb (is_pyi a) (is_pyi b) = true ->
+  dict_ok (body stb) = true -> root_container (body stb) = true -> root_container (body md) = true ->
+  arrive fuel pk (arrive fuel pk s (n, a)) (n, b) = arrive fuel pk (arrive fuel pk s (n, b)) (n, a) /\
+  arrive fuel pk (arrive fuel pk s (n, a)) (n, b) = pair_result fuel pk s n stb md /\
+  s_err (pair_result fuel pk s n stb md) = None.
+Proof. exact adjacent_pair_order_independent. Qed.
+Print Assumptions C19_adjacent_pair_order_independent.
+
+(* ... for whole listings: swapping two adjacent files of a pair anywhere in the listing does not change the outcome *)
+Theorem C19_load_seq_adjacent_pair :
+  forall fuel pk pre post n a b stb md,
+  let s := fold_left (arrive fuel pk) pre (mkS [] [] [] false None) in
+  s_err s = None -> lookup n (s_mods s) = None ->
+  (forall bd, In bd (s_bound s) -> b_home bd <> n) ->
+  state_clean n (s_mods s) -> clean n (body a) -> clean n (body b) ->
+  roles a b = Some (stb, md) -> xorb (is_pyi a) (is_pyi b) = true ->
+  dict_ok (body stb) = true -> root_container (body stb) = true -> root_container (body md) = true ->
+  load_seq fuel pk (pre ++ (n, a) :: (n, b) :: post) = load_seq fuel pk (pre ++ (n, b) :: (n, a) :: post).
+Proof. exact load_seq_adjacent_pair. Qed.
+Print Assumptions C19_load_seq_adjacent_pair.
+
+(* non-vacuity: a_impl.py loaded, then m.pyi / m.py (from pkg.a_impl import f): every hypothesis holds, and the stub's
+   types arrive in a_impl.f through the alias *)
+Theorem C19_adjacent_pair_hypotheses_satisfiable :
+  let s := fold_left (arrive 8 "pkg") [("a_impl", exs_impl)] (mkS [] [] [] false None) in
+  s_err s = None /\ lookup "m" (s_mods s) = None /\ (forall bd, In bd (s_bound s) -> b_home bd <> "m") /\
+  state_clean "m" (s_mods s) /\ clean "m" (body exs_mpyi) /\ clean "m" (body exs_mpy) /\
+  roles exs_mpyi exs_mpy = Some (exs_mpyi, exs_mpy) /\ xorb (is_pyi exs_mpyi) (is_pyi exs_mpy) = true /\
+  dict_ok (body exs_mpyi) = true /\ root_container (body exs_mpyi) = true /\ root_container (body exs_mpy) = true /\
+  s_mods (load_seq 8 "pkg" [("a_impl", exs_impl); ("m", exs_mpyi); ("m", exs_mpy)]) =
+    [("a_impl", mkF false (Obj (scope KMod []) [("f", Obj (with_ret (with_params (nd KFun) [("x", Some "int")]) (Some "int")) [])]));
+     ("m", exs_mpy)].
+Proof. exact adjacent_pair_hypotheses_satisfiable. Qed.
+Print Assumptions C19_adjacent_pair_hypotheses_satisfiable.
